@@ -66,3 +66,34 @@ fn spawned_syscall_self_despawn_returns_output()
     std::mem::forget(world);
     kani::cover!(true, "end of harness reached");
 }
+
+fn suicidal_direct(In(x): In<u8>, world: &mut World) -> u8
+{
+    let me = world.resource::<Me>().0;
+    world.m_despawn_noflush(me);      // the entity is gone when the system returns (how it was despawned is not the subject)
+    world.resource_mut::<Hits>().0 += 1;
+    x + 1
+}
+
+/// C17 / C18: a spawned system whose entity is gone when it returns (it despawned itself) still returns its output: the
+/// caller gets `Ok(output)`, the run happened exactly once, nothing panics.
+#[kani::proof]
+#[kani::stub(core::any::TypeId::of, crate::vh::stub_typeid_of)]
+#[kani::stub(<core::any::TypeId as crate::vh::PEq>::eq, crate::vh::stub_typeid_eq)]
+#[kani::unwind(4)]
+fn spawned_syscall_self_despawn_direct()
+{
+    let mut world = World::new();
+    world.m_drop_table::<bevy::model::cell::LeakAll>();
+    world.m_apply_via_fn_pointer();      // exclusive systems queue their cleanup as an (unnameable) closure command
+    world.insert_resource(Hits(0));
+    let id = spawn_system(&mut world, suicidal_direct);
+    world.insert_resource(Me(id.entity()));
+    let x: u8 = kani::any();
+    kani::assume(x < 100);
+    assert!(spawned_syscall::<In<u8>, u8>(&mut world, id, x) == Ok(x + 1), "C17: the system ran once, so its output is returned even though its entity is gone");
+    assert!(!world.m_alive(id.entity()) && world.resource::<Hits>().0 == 1, "C17: exactly one run");
+    assert!(spawned_syscall::<In<u8>, u8>(&mut world, id, x).is_err() && world.resource::<Hits>().0 == 1, "C17/C18: calling it again is an error and runs nothing");
+    std::mem::forget(world);
+    kani::cover!(true, "end of harness reached");
+}
